@@ -4,11 +4,30 @@
   Model : JV.Model.Pointer (jsonpointer.hpp: parse/to_string state machine, resolve, get, contains,
           add, add_if_absent, replace, remove, create_if_missing; state-passing: the document after
           an error is part of the result), for both object flavours.
+          JV.Model.Unflatten (jsonpointer.hpp `unflatten`, `unflatten_object`, `try_unflatten_array`,
+          `find_inner_last`, both `unflatten_options`), tied line by line to the real code.
   Spec  : JV.Spec.Rfc6901.
-  Helper lemmas: JV.Proofs.PointerText, JV.Proofs.PointerOps, JV.Proofs.Number.
+  Helper lemmas: JV.Proofs.PointerText, JV.Proofs.PointerOps, JV.Proofs.Number,
+          JV.Proofs.Unflatten{Map,Order,Leaves,Blocks,Sorted,Collect,Build}.
+
+  flatten / unflatten.  Proved for ALL documents of the sorted flavour (`jsoncons::json`):
+    * `unflatten_flatten`: unflatten(flatten(d), options) = d for every `Roundtrippable` d, both options;
+      `Roundtrippable` is decidable and asks only for the representation invariant (objects sorted by
+      name, arrays shorter than 2^64) plus: default option - no non-empty object whose member names are
+      exactly the RFC 6901 array indices 0..n-1; assume_object - no non-empty array.  Empty containers
+      and scalars anywhere, also as the root, arrays of any length ("10" sorts before "2" in the pointer
+      map), names with '/' '~', "-", "01" (after /repo 52dff66) all round-trip.
+    * `index_named_object_comes_back_as_array`: the default option's clause is necessary.
+    * `flatten_pointers_resolve`: every pointer flatten emits addresses the value it is paired with.
+  NOT proved (observed by the `flatten` stream of checks/c14.py against the documented behaviour):
+    * under assume_object a non-empty array comes back as the object {"0":..,"n-1":..} (the exact image
+      of documents that are not Roundtrippable; only the default-option case is a theorem here);
+    * the insertion-ordered flavour (`ojson`, `ordered = true`): unflatten returns members in pointer
+      order, so the round trip holds only up to member order; model and code are tied on it, no theorem.
 -/
 import JV.Proofs.PointerText
 import JV.Proofs.PointerOps
+import JV.Proofs.UnflattenBuild
 namespace JV.Props.C14
 open JV Model Model.Pointer
 
@@ -103,7 +122,60 @@ theorem add_inserts_replace_overwrites (ordered create : Bool) (xs : List JVal) 
   have h3 : ¬ i ≥ xs.length := by omega
   simp [apply, modifyAt, finalStep, hd, hi, h1, h2, h3, insertAt]
 
+/-! ### flatten / unflatten -/
+
+/-- the documents `unflatten(flatten(d), options)` returns unchanged (`assumeObject` =
+    `unflatten_options::assume_object`); see `SMap.roundtrippable`: sorted objects, arrays shorter than
+    2^64, and no non-empty array (assume_object) / no non-empty object named exactly 0..n-1 (default) -/
+def Roundtrippable (assumeObject : Bool) (d : JVal) : Prop := SMap.roundtrippable assumeObject d = true
+
+instance (a : Bool) (d : JVal) : Decidable (Roundtrippable a d) := inferInstanceAs (Decidable (_ = true))
+
+/-- unflatten(flatten(d), options) = d for every roundtrippable document, for both options -/
+theorem unflatten_flatten (assumeObject : Bool) (d : JVal) (h : Roundtrippable assumeObject d) :
+    unflatten false assumeObject (flatten false d) = .ok d :=
+  SMap.unflatten_flatten_main assumeObject d h
+
+/-- … and the default option's restriction is necessary: a sorted object whose member names are exactly
+    the array indices 0..n-1 comes back as an array (the ambiguity doc/ref/jsonpointer/flatten.md documents) -/
+theorem index_named_object_comes_back_as_array (m : Bytes × JVal) (ms : List (Bytes × JVal))
+    (hs : SMap.sortedB (m :: ms) = true) (hc : SMap.rtMembers false (m :: ms) = true)
+    (hal : SMap.arrayLike (m :: ms) = true) :
+    ∃ xs, unflatten false false (flatten false (.obj (m :: ms))) = .ok (.arr xs) :=
+  SMap.index_named_main m ms hs hc hal
+
+/-- every pointer flatten emits addresses (by `get`, hence by RFC 6901 evaluation: `get_sound_wrt_rfc`)
+    the value it is paired with -/
+theorem flatten_pointers_resolve (d : JVal) (hw : JVal.WF d) (hs : SmallArrays d) (ms : List (Bytes × JVal))
+    (hf : flatten false d = .obj ms) : ∀ kv ∈ ms, getStr d kv.1 = .ok kv.2 := by
+  intro kv hkv
+  have hms : ms = flattenInto false [] d [] := by
+    unfold flatten at hf; cases hf; rfl
+  rw [hms] at hkv
+  obtain ⟨e, he, rfl⟩ := (SMap.flatten_members d hw hs kv).1 hkv
+  simp only [getStr, parse_toString_aux]
+  exact SMap.leaves_resolve d hw hs e he
+
+/-- … and flatten emits a pointer for every leaf (scalar or empty container) of the document -/
+theorem flatten_covers_leaves (d : JVal) (hw : JVal.WF d) (hs : SmallArrays d) (e : Entry) (he : e ∈ SMap.leaves d) :
+    (Pointer.toString e.1, e.2) ∈ flattenInto false [] d [] :=
+  (SMap.flatten_members d hw hs _).2 ⟨e, he, rfl⟩
+
 /-! ### non-vacuity -/
+
+-- [ {"a":[], "b":{"0":1,"2":null}}, [1,[]] ] round-trips under the default option
+example : Roundtrippable false (.arr [.obj [([97], .arr []), ([98], .obj [([48], .int 1), ([50], .null)])], .arr [.int 1, .arr []]]) := by decide
+-- {"0":1,"1":null} does not (it comes back as [1,null]) but does under assume_object
+example : ¬ Roundtrippable false (.obj [([48], .int 1), ([49], .null)]) := by decide
+example : Roundtrippable true (.obj [([48], .int 1), ([49], .null), ([97], .arr [])]) := by decide
+example : SMap.arrayLike [([48], .int 1), ([49], .null)] = true ∧ SMap.arrayLike [([48], .int 1), ([48, 48], .null)] = false := by decide
+-- the theorem applied: a 12-element array (pointer order "/1" < "/10" < "/11" < "/2") inside an object
+example : unflatten false false (flatten false (.obj [([97], .arr ((List.range 12).map fun i => .int (Int.ofNat i)))])) =
+    .ok (.obj [([97], .arr ((List.range 12).map fun i => .int (Int.ofNat i)))]) := unflatten_flatten false _ (by decide)
+-- scalar and empty roots
+example : Roundtrippable false (.int 5) ∧ Roundtrippable true (.obj []) ∧ Roundtrippable true (.arr []) := by decide
+-- a non-empty array is not roundtrippable under assume_object
+example : ¬ Roundtrippable true (.arr [.int 1]) := by decide
 
 example : parse [47, 97, 126, 49, 98, 47, 126, 48, 47] = .ok [[97, 47, 98], [126], []] := by rfl
 example : decToIndex [49, 48] = some 10 ∧ decToIndex [48, 49] = none ∧ decToIndex [45] = none := by decide
